@@ -218,11 +218,16 @@ def finish(mod, prop, tier, seed, records, shard_failures, planned, wall, replay
             w = r.get('why', '?')
             inconc_why[w] = inconc_why.get(w, 0) + 1
         if v == 'violated':
-            key = r.get('key', 'unclassified')
-            if key in known_keys:
-                known_seen.setdefault(key, []).append(r)
-            else:
-                violations.append(r)
+            # a batch case may carry several violations (one per mechanism key)
+            subs = r.get('violations') or [r]
+            for sv in subs:
+                sv = dict(sv)
+                sv.setdefault('params', r.get('params'))
+                key = sv.get('key', 'unclassified')
+                if key in known_keys:
+                    known_seen.setdefault(key, []).append(sv)
+                else:
+                    violations.append(sv)
     # samples: prefer non-trivial, spread over the run
     cand = [r for r in records if r.get('sample') is not None and r.get('verdict') != 'inconclusive']
     cand.sort(key=lambda r: (not r.get('nontrivial'), h(r.get('params'))))
@@ -310,11 +315,55 @@ def finish(mod, prop, tier, seed, records, shard_failures, planned, wall, replay
     print('  features:', json.dumps(interesting))
     if replay:
         for r in records:
-            print(json.dumps({k: r.get(k) for k in ('verdict', 'key', 'what', 'witness', 'why', 'trace')},
-                             indent=1, default=str))
+            print(json.dumps({k: r.get(k) for k in ('verdict', 'key', 'what', 'witness', 'violations', 'why', 'trace')
+                              if r.get(k) is not None}, indent=1, default=str)[:6000])
     if violations:
         return 1
     if inconclusive_run:
         print('INCONCLUSIVE property=%s: %s' % (prop, inconclusive_run))
         return 2
     return 0
+
+
+class Batch:
+    """Accumulator for a case that consists of many sub-cases (keeps going after a violation so that one
+    mechanism does not mask another; keeps the first witness per mechanism key)."""
+
+    def __init__(self):
+        self.hits = 0
+        self.feats = {}
+        self.nth = set()
+        self.sample = None
+        self.viol = {}
+        self.counts = {}
+
+    def feat(self, f, n=1):
+        if isinstance(f, dict):
+            for k, v in f.items():
+                if v:
+                    self.feats[k] = self.feats.get(k, 0) + int(v)
+        elif n:
+            self.feats[f] = self.feats.get(f, 0) + n
+
+    def nontrivial(self, obj, sample=None):
+        self.nth.add(obj if isinstance(obj, str) and len(obj) == 16 else h(obj))
+        if self.sample is None and sample is not None:
+            self.sample = sample
+
+    def violation(self, key, what, witness):
+        self.counts[key] = self.counts.get(key, 0) + 1
+        if key not in self.viol:
+            self.viol[key] = {'key': key, 'what': what, 'witness': witness}
+
+    def result(self):
+        rec = {'hits': self.hits, 'features': self.feats, 'nontrivial': bool(self.nth),
+               'nt_hashes': sorted(self.nth), 'sample': self.sample}
+        if self.viol:
+            rec['verdict'] = 'violated'
+            rec['violations'] = list(self.viol.values())
+            rec['violation_counts'] = self.counts
+            first = rec['violations'][0]
+            rec['key'], rec['what'] = first['key'], first['what']
+        else:
+            rec['verdict'] = 'held'
+        return rec
